@@ -42,6 +42,9 @@ def replay(prop_id, path):
     return 0
 
 
+DISK_CFG = {"name": "disk", "args": ["--idx", "--own-dir"], "env": {"VIBESQL_VERIF_FORCE_DISK_INDEX": "1"}}
+
+
 # ---------------------------------------------------------------- C13 / C14: transactions and savepoints
 @prop("C13", "C14")
 def check_txn(prop_id, tier, seed):
@@ -49,14 +52,18 @@ def check_txn(prop_id, tier, seed):
     depth = {"quick": 6, "thorough": 8}[tier]
     scen, stats = vc.gen_scenarios(prop_id, "MC_Txn", "MC_Txn.cfg", ec.ENGINE_DEPS, consts={"MaxDepth": depth}, workers=1)
     stats["exhaustive"] = True
-    parts = [{"name": "txn", "scenarios": scen, "configs": [{"name": "default", "args": ["--idx"]}]}]
+    # the index registry and index contents must come back with ROLLBACK / ROLLBACK TO under both index back-ends:
+    # in-memory indexes are copied at BEGIN, a disk-backed B+ tree is shared between the live index and that copy
+    step = {"quick": 4, "thorough": 1}[tier]
+    parts = [{"name": "txn", "scenarios": scen, "configs": [{"name": "default", "args": ["--idx"]}]},
+             {"name": "txn_disk", "scenarios": scen[::step], "configs": [DISK_CFG]}]
     wd = os.path.join(vc.RUN, "work_%s" % prop_id)
     verdict, events, _ = ec.run_parts(prop_id, parts, wd)
     # C13 and C14 share scenarios and validation; a mismatch on SAVEPOINT / ROLLBACK TO / RELEASE belongs to C14,
     # one on COMMIT / ROLLBACK to C13, anything else (BEGIN, DML inside the transaction, DDL) is reported by both
     other = {"C13": ("sp", "rollto", "release"), "C14": ("commit", "rollback")}[prop_id]
     return ec.finish(prop_id, tier, seed, t0, verdict, events, stats, owns=lambda b: b.get("a") not in other,
-                     configs=parts[0]["configs"])
+                     configs=[parts[0]["configs"][0], DISK_CFG])
 
 
 # ---------------------------------------------------------------- query semantics families (MC_Sem)
@@ -183,6 +190,12 @@ def idx_scenarios(prop_id, tier, seed, sample, nprobes):
         probes = vc.extract_tagged(out, "PROBES")[-1]
     rnd = random.Random(seed)
     stats["exhaustive"] = True
+    if nprobes:
+        # query answers can only depend on indexes in histories that create one and change data at least twice (an index
+        # over a single change is covered by them as a prefix); the others are left to the structural check C15
+        scen = [s for s in scen if any(x["a"] == "ci" for x in s["steps"])
+                and sum(1 for x in s["steps"] if x["a"] in ("ins", "upd", "del", "trunc")) >= 2]
+        stats["index_relevant_histories"] = len(scen)
     if sample and len(scen) > sample:
         scen = rnd.sample(scen, sample)
         stats["exhaustive"] = False
@@ -203,8 +216,8 @@ IDX_CONFIGS = {
 
 def idx_check(prop_id, tier, seed, cfg_names, owns=None, sample=None, nprobes=None):
     t0 = time.time()
-    sample = sample or {"quick": 1500, "thorough": 12000}
-    nprobes = nprobes or {"quick": 14, "thorough": 24}
+    sample = sample or {"quick": 1200, "thorough": 20000}
+    nprobes = nprobes or {"quick": 16, "thorough": 30}
     sample, nprobes = sample[tier], nprobes[tier]
     scen, stats = idx_scenarios(prop_id, tier, seed, sample, nprobes)
     parts = [{"name": "idx", "scenarios": scen, "configs": [IDX_CONFIGS[c] for c in cfg_names]}]
@@ -594,3 +607,41 @@ def check_c34(prop_id, tier, seed):
     wd = os.path.join(vc.RUN, "work_%s" % prop_id)
     verdict, events, _ = ec.run_parts(prop_id, parts, wd)
     return ec.finish(prop_id, tier, seed, t0, verdict, events, agg, configs=cfgs, extra_cov={"trigger_sets": TRG_SETS})
+
+
+# ---------------------------------------------------------------- C26: access control (MC_Sec)
+@prop("C26")
+def check_c26(prop_id, tier, seed):
+    t0 = time.time()
+    depth = {"quick": 3, "thorough": 4}[tier]
+    scen, stats = vc.gen_scenarios(prop_id, "MC_Sec", "MC_Sec.cfg", ec.ENGINE_DEPS, consts={"MaxDepth": depth}, workers=1)
+    stats["exhaustive"] = True
+    cfgs = [{"name": "default", "args": []}]
+    wd = os.path.join(vc.RUN, "work_%s" % prop_id)
+    verdict, events, _ = ec.run_parts(prop_id, [{"name": "sec", "scenarios": scen, "configs": cfgs}], wd)
+    denied = okr = 0
+    with open(events) as fh:
+        for ln in fh:
+            if '"out":"denied"' in ln:
+                denied += 1
+    return ec.finish(prop_id, tier, seed, t0, verdict, events, stats, configs=cfgs, extra_cov={"statements_denied": denied})
+
+
+# ---------------------------------------------------------------- C25: query result cache (MC_Cache)
+@prop("C25")
+def check_c25(prop_id, tier, seed):
+    t0 = time.time()
+    depth = {"quick": 4, "thorough": 5}[tier]
+    scen, stats = vc.gen_scenarios(prop_id, "MC_Cache", "MC_Cache.cfg", ec.ENGINE_DEPS, consts={"MaxDepth": depth}, workers=1)
+    stats["exhaustive"] = True
+    cfgs = [{"name": "default", "args": []}]
+    wd = os.path.join(vc.RUN, "work_%s" % prop_id)
+    verdict, events, _ = ec.run_parts(prop_id, [{"name": "cache", "scenarios": scen, "configs": cfgs}], wd)
+    hits = 0
+    with open(events) as fh:
+        for ln in fh:
+            if "-- cache hit" in ln:
+                hits += 1
+    if hits == 0:
+        raise vc.ToolError("no cached query was answered from the cache: the check would be vacuous")
+    return ec.finish(prop_id, tier, seed, t0, verdict, events, stats, configs=cfgs, extra_cov={"answers_served_from_cache": hits})
